@@ -51,3 +51,21 @@ def register(reg):
         "Trusted: inscribed-ball depths and support-plane gaps from the oracle closed forms; the reference solver's "
         "separating slab (sound lower bound) for lattice/parallel/coplanar scenes.",
         "DESIGN.md section 4 C02")
+
+    reg("C09",
+        "runtime oracle monitor on gjk_distance_original / Nesterov GJK (plain and accelerated, generic and primitives variants) against exact constructed distances or the reference interval; mixed specialised/generic support pairs over-weighted",
+        "5 000 (quick) / 200 000 (thorough) pairs: original GJK judged for membership, consistency and optimality (1e-3 L); "
+        "Nesterov variants judged on max(distance,0) and on the inside flag outside the band, with use_nesterov_acceleration in "
+        "{False, True}; public wrappers compared with the core functions. Known findings K7 (iteration cap with acceleration "
+        "returns 0) and K7b (ZeroDivisionError in the compiled accelerated loop) are keyed by mechanism.",
+        "Trusted: truth as in C01. Blind spot: accelerated runs that hit the iteration cap (K7).",
+        "DESIGN.md section 4 C09")
+    reg("C19",
+        "bounded-progress monitor: support-evaluation counting proxies with a hard budget of 1000, sys.monitoring call counters for the type-dispatching Nesterov code, returned iteration counters, finiteness and exception-type monitors; wall-clock watchdog only as backstop",
+        "3 000 (quick) / 100 000 (thorough) hostile scenes (same object twice, copies, nested, lattice, touching, coplanar, "
+        "needle/flat aspect ratios to 1e4, zero-volume hulls) x 11 narrow-phase entry points + iteration helpers + "
+        "self_collision.detect/detect_any on small BVHs: every call must stay within 1000 support evaluations (proxy raises at "
+        "1001), return finite documented outputs, and raise nothing but EPA's capacity assertion with smooth shapes.",
+        "Trusted: proxies see every support_function call (jolt/libccd/original/MPR/EPA use only that interface). Finiteness "
+        "is judged on documented outputs, not on unused rows of np.empty simplex arrays. Known: K7b, K8, K12.",
+        "DESIGN.md section 4 C19")
